@@ -3,7 +3,7 @@
 From Coq Require Import List NArith PeanoNat Lia Bool.
 From Wbxml Require Import Model.TablesDefs Model.Conv Model.EncWbxml Model.EncWbxmlTables Model.XmlFront Model.ConvXml2Wbxml.
 From Wbxml Require Import Model.Codec Model.Tables Gen.TablesData.
-From Wbxml Require Import Proofs.EncWbxmlSize Proofs.EncWbxmlSize2 Proofs.XmlFrontTree Proofs.XmlFrontNames Proofs.ConvXml2WbxmlProofs.
+From Wbxml Require Import Proofs.EncWbxmlSize Proofs.EncWbxmlSize2 Proofs.XmlFrontTree Proofs.XmlFrontNames Proofs.XmlFrontSize Proofs.ConvXml2WbxmlProofs.
 Import ListNotations.
 Local Open Scope nat_scope.
 
@@ -92,4 +92,24 @@ Theorem xml2wbxml_linear_size_expat main btbl expat fuel o doc out n :
 Proof.
   intros MO VO EX H. destruct (xml2wbxml_linear_size main btbl expat fuel o doc out n VO H) as (t & T1 & _ & T3).
   exists t. split; [exact T1|]. apply T3. exact (tree_from_xml_fuel_names main expat MO EX fuel doc t T1).
+Qed.
+
+(* ------------------------------------------------------------------ linear in the volume of Expat's events *)
+
+(* output AND intermediate tree against what Expat delivered for the document: the tree has at most evvol (events) units
+   (embedded trees counted as one node each); the output at most 33 octets per unit of the tree plus of what the embedded
+   trees weigh (each is the front end's tree for the event list of its own document: the same theorem applies to it) *)
+Theorem xml2wbxml_linear_in_events main btbl expat fuel o doc out n :
+  Forall lang_names_ok main -> Forall lang_vals_ok btbl ->
+  (forall d, Forall ev_names_ok (fst (expat d))) ->
+  xml2wbxml main btbl expat fuel o doc = mk_res ST_OK (Some out) n ->
+  exists t, tree_from_xml_fuel main expat fuel doc = inl t /\
+            nszs (xt_roots t) <= evvol (fst (expat doc)) /\
+            List.length out <= 33 * (evvol (fst (expat doc)) + embs (hdr_max btbl) (xt_roots t)) + hdr_max btbl.
+Proof.
+  intros MO VO EX H. destruct (xml2wbxml_linear_size_expat main btbl expat fuel o doc out n MO VO EX H) as (t & T1 & T2).
+  exists t. split; [exact T1|].
+  assert (SZ : nszs (xt_roots t) <= evvol (fst (expat doc))).
+  { rewrite (fuel_unfold main expat fuel doc) in T1. exact (tree_size_linear main _ doc _ _ t T1). }
+  split; [exact SZ|]. rewrite wsizes_split in T2. lia.
 Qed.
